@@ -297,6 +297,11 @@ def cases(tier):
             lasts = list(range(1, min(254, declared_last + 3)))
         lasts = sorted(set(lasts))
         nv = len(bobj.values)
+        # read_all twice in one process against units with independent last accessible locations (what was
+        # learnt about one unit must not be applied to the next, even at the same short address)
+        cs.append(Case("readall-twice-%s" % bname, h_read_all,
+                       {"bname": bname, "vi": 0, "kind": "gear", "lasts": lasts, "use_latch": True,
+                        "near": tier == "quick"}, width=128, repeat=2))
         for vi in (range(nv) if tier != "quick" else range(0, nv, 5)):
             if len(bobj.values[vi].locations) > 8:
                 continue        # long strings as the symbolic probe multiply the paths (C11's subject)
